@@ -518,10 +518,19 @@ func ruleWebVTTSettings(p *Prog, l *Ledger, tier string) {
 								if ci == nameCell || cv == nil {
 									continue
 								}
-								switch cv.(type) {
+								switch cx := cv.(type) {
 								case *ssa.Function, *ssa.MakeClosure:
 									hasGetter = true
 									traceFieldOrGetter(cv, fs)
+								case *ssa.Call:
+									// a getter wrapped by a library function that returns the accessor (own value, else inherited)
+									for _, a := range cx.Call.Args {
+										switch a.(type) {
+										case *ssa.Function, *ssa.MakeClosure:
+											hasGetter = true
+											traceFieldOrGetter(a, fs)
+										}
+									}
 								}
 							}
 							if !hasGetter {
@@ -548,6 +557,22 @@ func ruleWebVTTSettings(p *Prog, l *Ledger, tier string) {
 									}
 								}
 								leaves(val, map[ssa.Value]bool{})
+							}
+							note(sep, k, fs)
+						}
+					} else if rows, nameCell, isLocal := localTableCell(parts[j-1]); j > 0 && isLocal {
+						// row.key + "=" + value, the rows being a local literal of (key, own value, inherited value)
+						for _, row := range rows {
+							k, ok := constStr(row[nameCell])
+							if !ok {
+								continue
+							}
+							fs := strset{}
+							for ci, cv := range row {
+								if ci != nameCell && cv != nil {
+									traceFieldOrGetter(cv, fs)
+									traceField(cv, "", map[ssa.Value]bool{}, fs)
+								}
 							}
 							note(sep, k, fs)
 						}
